@@ -74,6 +74,12 @@ pub fn run_server_case(case: &ServerCase) -> ServerObs {
 }
 
 pub fn run_server_case_with(case: &ServerCase, followup: Option<&Followup>) -> ServerObs {
+    run_server_case_io(case, followup, None)
+}
+
+/// `write_chunking`: the peer reads slowly - every write of the server is accepted in pieces of at
+/// most `.0` bytes with `.1` of virtual time between them
+pub fn run_server_case_io(case: &ServerCase, followup: Option<&Followup>, write_chunking: Option<(usize, Duration)>) -> ServerObs {
     let log: Log = Arc::new(Mutex::new(vec![]));
     let (map, refs) = build_map(&case.stores, &log);
     let map2 = map.clone();
@@ -99,6 +105,9 @@ pub fn run_server_case_with(case: &ServerCase, followup: Option<&Followup>) -> S
             .unwrap();
         rt.block_on(async {
             let (io, handle) = sim_io(script, seq.clone());
+            if let Some((k, d)) = write_chunking {
+                handle.set_write_chunking(k, d);
+            }
             handle_slot = Some(handle.clone());
             let (tx, rx) = tokio::sync::mpsc::channel(8);
             let start = tokio::time::Instant::now();
